@@ -151,8 +151,9 @@ def inv_6502(st):
     return [k for k in ("a", "x", "y", "sp") if int(st[k], 16) > 0xff]
 
 
-INVARIANT = {"tms1000": inv_tms1000, "8008": inv_8008, "lc3": lambda st: [], "6502": inv_6502}
-MEM_LIMIT = {"tms1000": 0x400, "8008": 0x10000, "lc3": 0x20000, "6502": 0x10000}
+INVARIANT = {"tms1000": inv_tms1000, "8008": inv_8008, "lc3": lambda st: [], "6502": inv_6502, "tms9900": lambda st: [],
+             "ebpf": lambda st: []}
+MEM_LIMIT = {"tms1000": 0x400, "8008": 0x10000, "lc3": 0x20000, "6502": 0x10000, "tms9900": 0x10000, "ebpf": 0}
 # tms1000 never writes simulated memory: its limit is only used for "cells not given must stay absent"
 
 # ---- 6502 -----------------------------------------------------------------------------------
@@ -190,4 +191,25 @@ def m6502_lines(rng, per_opcode):
     return lines, {"opcodes": 256, "strata(opcode,sp edge,pc top)": len(strata)}
 
 
-GENERATORS = {"tms1000": tms1000_lines, "8008": i8008_lines, "lc3": lc3_lines, "6502": m6502_lines}
+# ---- tms9900 / ebpf: simulators that execute nothing ------------------------------------------
+def tms9900_lines(rng, per_opcode):
+    lines = []
+    for b in range(256):
+        for i in range(max(1, per_opcode // 4)):
+            pc = rng.choice([0, 0xffff, 0xfffe, rng.getrandbits(16)])
+            st = [("pc", pc), ("wp", rng.choice([0, 0xffe0, 0xffff, rng.getrandbits(16)])), ("st", rng.getrandbits(16))] + common(rng)
+            mem = {pc: b, (pc + 1) & 0xffff: rng.getrandbits(8)}
+            lines.append("simx tms9900 %s %s" % (kv(st), cells(mem)))
+    return lines, {"first_bytes": 256}
+
+
+def ebpf_lines(rng, per_opcode):
+    lines = []
+    for b in range(256):
+        st = [("pc", rng.choice([0, 0xfffffff8, rng.getrandbits(32)]))] + common(rng) + \
+             [("reg", hexarr([rng.choice([0, 0xffffffff, 0x80000000, rng.getrandbits(32)]) for _ in range(16)], 8))]
+        lines.append("simx ebpf %s %s" % (kv(st), cells({0: b, 1: rng.getrandbits(8)})))
+    return lines, {"first_bytes": 256}
+
+
+GENERATORS = {"tms9900": tms9900_lines, "ebpf": ebpf_lines, "tms1000": tms1000_lines, "8008": i8008_lines, "lc3": lc3_lines, "6502": m6502_lines}
